@@ -305,6 +305,8 @@ func (in *interp) find(vals []jv.Val, last bool) jv.Val {
 	return jv.VNull()
 }
 
+const padBudget = 1100000
+
 func (in *interp) pad(vals []jv.Val, left bool) jv.Val {
 	s, ok1 := in.str(vals[0])
 	w, ok2 := in.intArg(vals[1])
@@ -332,7 +334,10 @@ func (in *interp) pad(vals []jv.Val, left bool) jv.Val {
 	if w <= n {
 		return jv.VStr(s)
 	}
-	if w-n > int64(in.budget) {
+	// pads get a budget of their own (a little over 2^20 characters): widths
+	// just above a million are within reach of a generated case, and the
+	// result is cheap to build and to compare
+	if w-n > int64(in.budget) && w-n > padBudget {
 		return in.undet("result-too-large")
 	}
 	padding := strings.Repeat(p, int(w-n))
